@@ -314,6 +314,51 @@ pub fn run(tier: Tier) -> i32 {
         }
     }
 
+    // identical (key, value) pairs inserted several times: every other family tags each value with
+    // its insertion index, which would hide a sorter that collapses equal pairs
+    {
+        let sym: [(Vec<u8>, Vec<u8>); 4] = [(b"k".to_vec(), b"vv".to_vec()), (b"m".to_vec(), b"vv".to_vec()), (b"k".to_vec(), vec![]), (vec![], b"vv".to_vec())];
+        let mut seqs: Vec<Vec<usize>> = vec![vec![]];
+        let mut frontier: Vec<Vec<usize>> = vec![vec![]];
+        for _ in 0..tier.pick(5, 6) {
+            let mut next = Vec::new();
+            for s in &frontier {
+                for a in 0..sym.len() {
+                    let mut t = s.clone();
+                    t.push(a);
+                    next.push(t);
+                }
+            }
+            seqs.extend(next.iter().cloned());
+            frontier = next;
+        }
+        let dup_cfgs = [SorterCfg::scaled(64, 64, false, 2, false), SorterCfg::scaled(64, 16, true, 2, true), SorterCfg::scaled(1 << 12, 1 << 12, false, 3, false)];
+        let a = par_for(seqs.len(), 64, &deadline, |i, acc| {
+            let inserts: Vec<Entry> = seqs[i].iter().map(|a| sym[*a].clone()).collect();
+            let want: Vec<Entry> = model_output(&inserts).into_iter().map(|(k, vs)| (k, vs.concat())).collect();
+            for cfg in &dup_cfgs {
+                for how in EXTRACTIONS {
+                    acc.evaluations += 1;
+                    match crate::sorter_util::run_sorter(cfg, &inserts, how) {
+                        Ok(out) if out == want => acc.hist("ok_identical_pairs"),
+                        r => {
+                            let msg = match r {
+                                Ok(out) => format!("output {:?} but sort-and-merge gives {:?}", out, want),
+                                Err(e) => e,
+                            };
+                            acc.violation(Violation {
+                                signature: format!("identical-pairs;{:?};{}", seqs[i], serde_json::to_string(cfg).unwrap()),
+                                summary: format!("C07: {} inserts {:?} (0: k=>vv, 1: m=>vv, 2: k=>'', 3: ''=>vv) extracted by {:?}: {msg}", serde_json::to_string(cfg).unwrap(), seqs[i], how),
+                                case: json!({"kind": "identical_pairs", "seq": seqs[i], "cfg": cfg, "how": how}),
+                            });
+                        }
+                    }
+                }
+            }
+        });
+        total.merge(a);
+    }
+
     // group 3b: sequential sort of larger runs (std's small-slice sorts are insertion sorts, which
     // hide an unstable algorithm): many duplicates per key in one in-memory run, and across spills
     let mut bulk: Vec<Case> = Vec::new();
@@ -404,6 +449,10 @@ pub fn run(tier: Tier) -> i32 {
 }
 
 pub fn replay(case: &serde_json::Value) -> i32 {
+    if case["kind"] == "identical_pairs" {
+        println!("re-run ./check C07 quick: the identical-pair sequences are a fixed enumeration (the summary names the inserts)");
+        return 2;
+    }
     if case["kind"] == "sorter_default_ctor" {
         println!("re-run ./check C07 quick: the default-constructor cases are four fixed runs");
         return 2;
